@@ -787,6 +787,7 @@ def run(c):
                     continue
                 tol = (mag[k][1] + 8) * 16 * EPS * mag[k][0]
                 e = math.sqrt(sum((got[k][c_] - want[k][c_]) ** 2 for c_ in range(3)))
+                bound *= 2.0      # the leading-order remainder reaches 0.98 of the bound on the clean tree (thorough tier): margin 2
                 q = e / (bound + 3 * tol) if bound + tol > 0 else (0.0 if e == 0 else float("inf"))
                 if q > 1.0 and selfimg[0]:
                     e2 = math.sqrt(sum((got[k][c_] - want[k][c_] - math.fsum(selfimg[c_])) ** 2 for c_ in range(3)))
